@@ -1090,6 +1090,468 @@ func paramTable(model map[string]*ast.File) {
 
 // ==== END T3 ==================================================================================================
 
+// ==== BEGIN C07 addition (builder "bodies"): fixedLayouts ===================================================
+// T7: fixed layouts.
+// fixedLayouts reads the straight-line Parse / Encode pairs of the fixed-layout message types and emits, per type T,
+//
+//	gen_layout_T_fields        the exported fields of the struct in declaration order (embedded BaseHandle skipped)
+//	gen_layout_T_parse         list (field, offset, width, kind) sorted by offset; kind 0 = big-endian unsigned
+//	                           (a single byte included), 1 = BCD time (utils.BCD2Time / utils.Time2BCD), 2 = utils.Bcd2Dec
+//	gen_layout_T_parse_guard   (kind, constant) of the one length guard: kind 0 = `len(body) != c`, 1 = `len(body) < c`
+//	gen_layout_T_encode        the same list read off Encode
+//	gen_layout_T_encode_len    the length of what Encode returns (make length + everything appended)
+//
+// Parse shape: `body := jtMsg.Body` (or a []byte parameter), ONE `if len(body) <op> c { return ... }`, then only
+// `recv.F = body[i]`, `recv.F = binary.BigEndian.UintNN(body[a:b])`, `recv.F = utils.BCD2Time(body[a:b])`,
+// `recv.F = utils.Bcd2Dec(body[a:b])` with constant index expressions, calls `recv.X.parse(recv.Y)` that derive one field
+// from another (skipped: they read nothing from the body), `return nil`.
+// Encode shape: `data := make([]byte, n[, cap])`, then `binary.BigEndian.PutUintNN(data[a:b] | data, recv.F)`,
+// `data[i] = recv.F`, `copy(data[a:b], utils.Time2BCD(recv.F) | local)`, `local := utils.Time2BCD(recv.F)`,
+// `data = append(data, recv.F)`, `data = append(data, utils.Time2BCD(recv.F)...)`,
+// `data = binary.BigEndian.AppendUintNN(data, recv.F)`, `return data`.
+// Anything else: fail("layout_T_parse" / "layout_T_encode", ...) and the definition is omitted.
+func fixedLayouts(model map[string]*ast.File) {
+	type entry struct {
+		field            string
+		off, width, kind int64
+	}
+	var constInt func(e ast.Expr) (int64, bool)
+	constInt = func(e ast.Expr) (int64, bool) {
+		switch x := e.(type) {
+		case *ast.BinaryExpr:
+			a, ok1 := constInt(x.X)
+			b, ok2 := constInt(x.Y)
+			if !ok1 || !ok2 {
+				return 0, false
+			}
+			switch x.Op {
+			case token.ADD:
+				return a + b, true
+			case token.SUB:
+				return a - b, true
+			case token.MUL:
+				return a * b, true
+			}
+			return 0, false
+		case *ast.ParenExpr:
+			return constInt(x.X)
+		case *ast.BasicLit:
+			if x.Kind == token.INT {
+				v, err := strconv.ParseInt(x.Value, 0, 64)
+				return v, err == nil
+			}
+		}
+		return 0, false
+	}
+	isIdent := func(e ast.Expr, name string) bool {
+		id, ok := e.(*ast.Ident)
+		return ok && id.Name == name
+	}
+	// recv.F -> F
+	fieldOf := func(e ast.Expr, recv string) (string, bool) {
+		sel, ok := e.(*ast.SelectorExpr)
+		if !ok || !isIdent(sel.X, recv) {
+			return "", false
+		}
+		return sel.Sel.Name, true
+	}
+	// pkg.Fn(args) or pkg.Sub.Fn(args) -> "pkg.Fn" / "pkg.Sub.Fn"
+	callName := func(e ast.Expr) (string, []ast.Expr, bool) {
+		c, ok := e.(*ast.CallExpr)
+		if !ok {
+			return "", nil, false
+		}
+		var parts []string
+		cur := c.Fun
+		for {
+			switch x := cur.(type) {
+			case *ast.SelectorExpr:
+				parts = append([]string{x.Sel.Name}, parts...)
+				cur = x.X
+				continue
+			case *ast.Ident:
+				parts = append([]string{x.Name}, parts...)
+			default:
+				return "", nil, false
+			}
+			break
+		}
+		return strings.Join(parts, "."), c.Args, true
+	}
+	// v[a:b] / v[:b] / v[a:] / v -> (a, b or -1)
+	sliceOf := func(e ast.Expr, v string) (int64, int64, bool) {
+		if isIdent(e, v) {
+			return 0, -1, true
+		}
+		se, ok := e.(*ast.SliceExpr)
+		if !ok || !isIdent(se.X, v) || se.Slice3 {
+			return 0, 0, false
+		}
+		lo, hi := int64(0), int64(-1)
+		if se.Low != nil {
+			x, ok := constInt(se.Low)
+			if !ok {
+				return 0, 0, false
+			}
+			lo = x
+		}
+		if se.High != nil {
+			x, ok := constInt(se.High)
+			if !ok {
+				return 0, 0, false
+			}
+			hi = x
+		}
+		return lo, hi, true
+	}
+	uintWidth := func(name, prefix string) (int64, bool) { // binary.BigEndian.<prefix>NN
+		if !strings.HasPrefix(name, "binary.BigEndian."+prefix) {
+			return 0, false
+		}
+		switch strings.TrimPrefix(name, "binary.BigEndian."+prefix) {
+		case "16":
+			return 2, true
+		case "32":
+			return 4, true
+		case "64":
+			return 8, true
+		}
+		return 0, false
+	}
+	recvName := func(fd *ast.FuncDecl) string {
+		if fd.Recv != nil && len(fd.Recv.List) == 1 && len(fd.Recv.List[0].Names) == 1 {
+			return fd.Recv.List[0].Names[0].Name
+		}
+		return ""
+	}
+	emit := func(name string, es []entry) {
+		sort.SliceStable(es, func(i, j int) bool { return es[i].off < es[j].off })
+		q := make([]string, len(es))
+		for i, e := range es {
+			q[i] = fmt.Sprintf("(%s%%string, %d, %d, %d)", strconv.Quote(e.field), e.off, e.width, e.kind)
+		}
+		fmt.Fprintf(&out, "Definition %s : list (string * N * N * N) := [%s].\n", name, strings.Join(q, "; "))
+	}
+
+	parseLayout := func(typ, fn string) {
+		item := "layout_" + typ + "_parse"
+		fd := findFunc(model, typ, fn)
+		if fd == nil || fd.Body == nil {
+			fail(item, "function not found")
+			return
+		}
+		recv := recvName(fd)
+		body := ""
+		if fd.Type.Params != nil { // a []byte parameter is the body
+			for _, p := range fd.Type.Params.List {
+				if at, ok := p.Type.(*ast.ArrayType); ok && at.Len == nil && isIdent(at.Elt, "byte") && len(p.Names) == 1 {
+					body = p.Names[0].Name
+				}
+			}
+		}
+		var es []entry
+		guardKind, guardC := int64(-1), int64(0)
+		for _, st := range fd.Body.List {
+			switch x := st.(type) {
+			case *ast.AssignStmt:
+				if len(x.Lhs) != 1 || len(x.Rhs) != 1 {
+					fail(item, "assignment shape")
+					return
+				}
+				if x.Tok == token.DEFINE { // body := jtMsg.Body
+					sel, ok := x.Rhs[0].(*ast.SelectorExpr)
+					id, ok2 := x.Lhs[0].(*ast.Ident)
+					if !ok || !ok2 || sel.Sel.Name != "Body" || body != "" {
+						fail(item, "unexpected definition")
+						return
+					}
+					body = id.Name
+					continue
+				}
+				f, ok := fieldOf(x.Lhs[0], recv)
+				if !ok || x.Tok != token.ASSIGN || body == "" {
+					fail(item, "left side is not a field of the receiver")
+					return
+				}
+				if ie, ok := x.Rhs[0].(*ast.IndexExpr); ok && isIdent(ie.X, body) { // recv.F = body[i]
+					i, ok := constInt(ie.Index)
+					if !ok {
+						fail(item, "index of "+f)
+						return
+					}
+					es = append(es, entry{f, i, 1, 0})
+					continue
+				}
+				name, args, ok := callName(x.Rhs[0])
+				if !ok || len(args) != 1 {
+					fail(item, "right side of "+f)
+					return
+				}
+				lo, hi, ok := sliceOf(args[0], body)
+				if !ok {
+					fail(item, "slice of "+f)
+					return
+				}
+				if w, ok := uintWidth(name, "Uint"); ok {
+					if hi >= 0 && hi-lo != w {
+						fail(item, "slice width of "+f)
+						return
+					}
+					es = append(es, entry{f, lo, w, 0})
+				} else if (name == "utils.BCD2Time" || name == "utils.Bcd2Dec") && hi >= 0 {
+					k := int64(1)
+					if name == "utils.Bcd2Dec" {
+						k = 2
+					}
+					es = append(es, entry{f, lo, hi - lo, k})
+				} else {
+					fail(item, "unknown reader "+name+" for "+f)
+					return
+				}
+			case *ast.IfStmt: // the one length guard
+				be, ok := x.Cond.(*ast.BinaryExpr)
+				if !ok || guardKind >= 0 || x.Else != nil || x.Init != nil || len(x.Body.List) != 1 || body == "" {
+					fail(item, "guard shape")
+					return
+				}
+				if _, ok := x.Body.List[0].(*ast.ReturnStmt); !ok {
+					fail(item, "guard body")
+					return
+				}
+				name, args, ok := callName(be.X)
+				c, okc := constInt(be.Y)
+				if !ok || name != "len" || len(args) != 1 || !isIdent(args[0], body) || !okc {
+					fail(item, "guard condition")
+					return
+				}
+				switch be.Op {
+				case token.NEQ:
+					guardKind = 0
+				case token.LSS:
+					guardKind = 1
+				default:
+					fail(item, "guard operator")
+					return
+				}
+				guardC = c
+			case *ast.ExprStmt: // recv.X.parse(recv.Y): one field derived from another, reads nothing from the body
+				c, ok := x.X.(*ast.CallExpr)
+				if !ok || len(c.Args) != 1 {
+					fail(item, "statement shape")
+					return
+				}
+				sel, ok := c.Fun.(*ast.SelectorExpr)
+				_, ok2 := fieldOf(c.Args[0], recv)
+				if !ok || !ok2 {
+					fail(item, "statement shape")
+					return
+				}
+				if _, ok := fieldOf(sel.X, recv); !ok {
+					fail(item, "statement shape")
+					return
+				}
+			case *ast.ReturnStmt:
+				if len(x.Results) != 1 || !isIdent(x.Results[0], "nil") {
+					fail(item, "return shape")
+					return
+				}
+			default:
+				fail(item, "statement shape")
+				return
+			}
+		}
+		if guardKind < 0 || len(es) == 0 {
+			fail(item, "no guard or no field")
+			return
+		}
+		emit("gen_"+item, es)
+		fmt.Fprintf(&out, "Definition gen_%s_guard : N * N := (%d, %d).\n", item, guardKind, guardC)
+	}
+
+	encodeLayout := func(typ, fn string) {
+		item := "layout_" + typ + "_encode"
+		fd := findFunc(model, typ, fn)
+		if fd == nil || fd.Body == nil {
+			fail(item, "function not found")
+			return
+		}
+		recv := recvName(fd)
+		data, cur, made := "", int64(0), int64(0)
+		local := map[string]string{} // local := utils.Time2BCD(recv.F)
+		var es []entry
+		// utils.Time2BCD(recv.F) or a local holding one
+		timeOf := func(e ast.Expr) (string, bool) {
+			if id, ok := e.(*ast.Ident); ok {
+				f, ok := local[id.Name]
+				return f, ok
+			}
+			name, args, ok := callName(e)
+			if !ok || name != "utils.Time2BCD" || len(args) != 1 {
+				return "", false
+			}
+			return fieldOf(args[0], recv)
+		}
+		returned := false
+		for _, st := range fd.Body.List {
+			switch x := st.(type) {
+			case *ast.AssignStmt:
+				if len(x.Lhs) != 1 || len(x.Rhs) != 1 {
+					fail(item, "assignment shape")
+					return
+				}
+				if x.Tok == token.DEFINE {
+					id, ok := x.Lhs[0].(*ast.Ident)
+					if !ok {
+						fail(item, "definition shape")
+						return
+					}
+					if name, args, ok := callName(x.Rhs[0]); ok && name == "make" && data == "" && (len(args) == 2 || len(args) == 3) {
+						n, ok := constInt(args[1])
+						if !ok {
+							fail(item, "make length")
+							return
+						}
+						data, cur, made = id.Name, n, n
+						continue
+					}
+					if f, ok := timeOf(x.Rhs[0]); ok {
+						local[id.Name] = f
+						continue
+					}
+					fail(item, "unexpected definition")
+					return
+				}
+				if x.Tok != token.ASSIGN || data == "" {
+					fail(item, "assignment shape")
+					return
+				}
+				if ie, ok := x.Lhs[0].(*ast.IndexExpr); ok && isIdent(ie.X, data) { // data[i] = recv.F
+					i, ok := constInt(ie.Index)
+					f, ok2 := fieldOf(x.Rhs[0], recv)
+					if !ok || !ok2 || i >= made {
+						fail(item, "index store")
+						return
+					}
+					es = append(es, entry{f, i, 1, 0})
+					continue
+				}
+				if !isIdent(x.Lhs[0], data) {
+					fail(item, "left side")
+					return
+				}
+				name, args, ok := callName(x.Rhs[0])
+				if !ok || len(args) != 2 || !isIdent(args[0], data) {
+					fail(item, "append shape")
+					return
+				}
+				c := x.Rhs[0].(*ast.CallExpr)
+				if w, ok := uintWidth(name, "AppendUint"); ok { // data = binary.BigEndian.AppendUintNN(data, recv.F)
+					f, ok := fieldOf(args[1], recv)
+					if !ok {
+						fail(item, "appended value")
+						return
+					}
+					es = append(es, entry{f, cur, w, 0})
+					cur += w
+				} else if name == "append" && c.Ellipsis.IsValid() { // data = append(data, utils.Time2BCD(recv.F)...)
+					f, ok := timeOf(args[1])
+					if !ok {
+						fail(item, "appended slice")
+						return
+					}
+					es = append(es, entry{f, cur, 6, 1})
+					cur += 6
+				} else if name == "append" { // data = append(data, recv.F)
+					f, ok := fieldOf(args[1], recv)
+					if !ok {
+						fail(item, "appended byte")
+						return
+					}
+					es = append(es, entry{f, cur, 1, 0})
+					cur++
+				} else {
+					fail(item, "unknown writer "+name)
+					return
+				}
+			case *ast.ExprStmt:
+				name, args, ok := callName(x.X)
+				if !ok || len(args) != 2 || data == "" {
+					fail(item, "statement shape")
+					return
+				}
+				lo, hi, ok := sliceOf(args[0], data)
+				if !ok {
+					fail(item, "destination slice")
+					return
+				}
+				if w, ok := uintWidth(name, "PutUint"); ok { // binary.BigEndian.PutUintNN(data[a:b], recv.F)
+					f, ok := fieldOf(args[1], recv)
+					if !ok || (hi >= 0 && hi-lo != w) || lo+w > made {
+						fail(item, "PutUint destination")
+						return
+					}
+					es = append(es, entry{f, lo, w, 0})
+				} else if name == "copy" && hi >= 0 { // copy(data[a:b], utils.Time2BCD(recv.F))
+					f, ok := timeOf(args[1])
+					if !ok || hi > made {
+						fail(item, "copy source")
+						return
+					}
+					es = append(es, entry{f, lo, hi - lo, 1})
+				} else {
+					fail(item, "unknown writer "+name)
+					return
+				}
+			case *ast.ReturnStmt:
+				if len(x.Results) != 1 || !isIdent(x.Results[0], data) {
+					fail(item, "return shape")
+					return
+				}
+				returned = true
+			default:
+				fail(item, "statement shape")
+				return
+			}
+		}
+		if !returned || len(es) == 0 {
+			fail(item, "no field or no return")
+			return
+		}
+		emit("gen_"+item, es)
+		fmt.Fprintf(&out, "Definition gen_%s_len : N := %d.\n", item, cur)
+	}
+
+	for _, t := range []struct{ typ, parse, encode string }{
+		{"T0x0001", "Parse", "Encode"}, {"P0x8001", "Parse", "Encode"}, {"T0x0800", "Parse", "Encode"},
+		{"T0x1003", "Parse", "Encode"}, {"T0x1005", "Parse", "Encode"}, {"T0x1206", "Parse", "Encode"},
+		{"P0x8801", "Parse", "Encode"}, {"P0x9102", "Parse", "Encode"}, {"P0x9105", "Parse", "Encode"},
+		{"P0x9202", "Parse", "Encode"}, {"P0x9205", "Parse", "Encode"}, {"P0x9207", "Parse", "Encode"},
+		{"T0x0200LocationItem", "parse", "encode"},
+	} {
+		fields, embedded := structFields(model, t.typ)
+		emb := map[string]bool{}
+		for _, e := range embedded {
+			emb[e] = true
+		}
+		var q []string
+		for _, f := range fields {
+			if !emb[f] && ast.IsExported(f) {
+				q = append(q, strconv.Quote(f))
+			}
+		}
+		if len(q) == 0 {
+			fail("layout_"+t.typ+"_fields", "struct not found")
+		} else {
+			fmt.Fprintf(&out, "Definition gen_layout_%s_fields : list string := [%s]%%string.\n", t.typ, strings.Join(q, "; "))
+		}
+		parseLayout(t.typ, t.parse)
+		encodeLayout(t.typ, t.encode)
+		fmt.Fprintln(&out)
+	}
+}
+
+// ==== END C07 addition =======================================================================================
+
 func main() {
 	repo := flag.String("repo", "/repo", "repository root")
 	outp := flag.String("out", "", "output .v file")
@@ -1110,6 +1572,7 @@ func main() {
 	constants(*repo)
 	simRegistry(parseDir(filepath.Join(*repo, "terminal")), svc, model) // C20/C06 addition
 	paramTable(model)
+	fixedLayouts(model) // T7 (C07)
 	q := make([]string, len(unrecognised))
 	for i, u := range unrecognised {
 		q[i] = strconv.Quote(u) + "%string"
